@@ -45,6 +45,36 @@ theorem single_numVal (x : Num) : Single (numVal x) := rfl
 
 /-! ### helper.go: `mustTypeCheck`, `forceShortCircuitType` -/
 
+/-- what the hand-written classification `Value.typeCheck` means for the pair Go's `typeCheck` returns -/
+def tcSpec (ret : Ty) : Res TC → Res (Option Value × Option String)
+  | .ok .none => .ok (none, none)
+  | .ok .dynamic => .ok (some dynVal, none)
+  | .ok .unknown => .ok (some (unknown ret), none)
+  | .panic w => .ok (none, some w)
+  | .err e => .err e
+  | .unmodelled => .unmodelled
+
+theorem or_isUnk (hu u : Bool) : (if u = true then true else hu) = (hu || u) := by cases hu <;> cases u <;> rfl
+
+/-- the loop of the translated `typeCheck` is the hand-written `typeCheckAux` -/
+theorem typeCheck_loop_eq (req ret : Ty) (vals : List Value) : ∀ (vs : List Value) (hd hu : Bool),
+    typeCheck_loop1 req ret vals hd hu vs = tcSpec ret (Value.typeCheckAux req vs hd hu)
+  | [], hd, hu => by cases hd <;> cases hu <;> rfl
+  | v :: vs, hd, hu => by
+    rw [typeCheck_loop1, Value.typeCheckAux]
+    by_cases h1 : v.ty.isDyn = true
+    · simp only [h1, if_true]
+      exact typeCheck_loop_eq req ret vals vs true hu
+    · by_cases h2 : v.ty.equals req = true
+      · simp only [h1, h2, Bool.not_true, Bool.false_eq_true, if_false]
+        rw [or_isUnk]
+        exact typeCheck_loop_eq req ret vals vs hd (hu || v.isUnk)
+      · simp [h1, h2, tcSpec, OpsGo.errorf]
+
+/-- `typeCheck`, translated, is the hand-written `Value.typeCheck` (an error is its panic) -/
+theorem typeCheck_eq (req ret : Ty) (vs : List Value) : typeCheck req ret vs = tcSpec ret (Value.typeCheck req vs) :=
+  typeCheck_loop_eq req ret vs vs false false
+
 /-- the translated `mustTypeCheck` answers the short-circuit pointer that the hand-written
 `typeCheck` classifies, and panics where it reports a mismatch -/
 theorem mustTypeCheck_eq (req ret : Ty) (vs : List Value) :
@@ -56,12 +86,22 @@ theorem mustTypeCheck_eq (req ret : Ty) (vs : List Value) :
        | .panic w => .panic w
        | .err e => .err e
        | .unmodelled => .unmodelled) := by
-  unfold mustTypeCheck OpsGo.typeCheck
+  unfold mustTypeCheck
+  rw [typeCheck_eq]
   cases Value.typeCheck req vs with
   | ok tc => cases tc <;> rfl
   | err e => rfl
   | panic w => rfl
   | unmodelled => rfl
+
+/-- `forceShortCircuitType`, translated: what it answers for every pointer and type -/
+theorem force_eq (sc : Option Value) (ty : Ty) :
+    forceShortCircuitType sc ty =
+      (match sc with
+       | none => .ok none
+       | some v => if v.ty.isDyn then .ok (some (unknown ty))
+                   else if !(v.ty.equals ty) then .panic "forceShortCircuitType got value of wrong type" else .ok (some v)) := by
+  cases sc <;> simp [forceShortCircuitType, OpsGo.deref]
 
 theorem force_dyn (ty : Ty) : forceShortCircuitType (some dynVal) ty = .ok (some (unknown ty)) := rfl
 theorem force_bool : forceShortCircuitType (some (unknown .bool)) .bool = .ok (some (unknown .bool)) := by
